@@ -166,3 +166,26 @@ Proof.
   { destruct (H u (or_introl eq_refl)) as [H1 H2]. unfold step. rewrite H1, H2. reflexivity. }
   rewrite Hs. apply IH. intros t Ht. apply H. right. exact Ht.
 Qed.
+
+(** ** the wrapped iterator yields at most one element per call of its next(): the count of elements it has
+    yielded never exceeds the count of calls made to it, in every reachable state (no hypotheses on the
+    environment, the programs or the schedule) *)
+Lemma step_cur_le_calls e c u :
+  s_cur (c_sh c) <= s_calls (c_sh c) -> s_cur (c_sh (step e c u)) <= s_calls (c_sh (step e c u)).
+Proof.
+  intros H. unfold step.
+  repeat first
+    [ solve [cbn [commit c_sh s_cur s_calls with_c with_y with_f with_src]; lia]
+    | progress unfold finish, call
+    | match goal with |- context [match ?x with _ => _ end] => destruct x eqn:? end ].
+Qed.
+
+Theorem yields_at_most_once_per_call : forall e progs sched,
+  s_cur (c_sh (exec e (init progs) sched)) <= s_calls (c_sh (exec e (init progs) sched)).
+Proof.
+  intros e progs sched.
+  assert (G : forall s c, s_cur (c_sh c) <= s_calls (c_sh c) ->
+                          s_cur (c_sh (exec e c s)) <= s_calls (c_sh (exec e c s))).
+  { induction s as [|u s IH]; intros c H; [exact H|]. rewrite exec_cons. apply IH, step_cur_le_calls, H. }
+  apply G. cbn [init c_sh s_cur s_calls]. lia.
+Qed.
